@@ -96,13 +96,14 @@ fn main() {
             sim::write_trace(&out, &lines);
             println!("{}", json!({"summary": {"scenarios": to + 1 - from, "lines": lines.len()}}));
         }
-        "browse" | "resolve" | "flood" | "silent" | "conflict" => {
+        "browse" | "browsew" | "resolve" | "flood" | "silent" | "conflict" => {
             let from: u64 = a.get("from").and_then(|s| s.parse().ok()).unwrap_or(1);
             let to: u64 = a.get("to").and_then(|s| s.parse().ok()).unwrap_or(10);
             let mut lines = Vec::new();
             for id in from..=to {
                 match cmd.as_str() {
                     "browse" => lines.extend(browse::scenario(id, seed, thorough, "browse")),
+                    "browsew" => lines.extend(browse::scenario(id, seed, thorough, "browsew")),
                     "resolve" => lines.extend(browse::scenario_resolve(id, seed, thorough)),
                     "silent" => lines.extend(browse::scenario_silent(id, seed, thorough)),
                     "conflict" => lines.extend(conflict::scenario(id, seed, thorough)),
